@@ -42,7 +42,7 @@ PROP = {
         "FROM are modelled in their select-project form (SELECT items FROM f [WHERE w]) AS r, every output column typed; a statement "
         "over a derived table with a WHERE of its own is generated without clauses that can fail (the engine merges the two filters); "
         "CASE (searched and simple) is modelled, but not below a unary minus",
-        "LIKE matches by characters (a character = a UTF-8 lead byte and its continuation bytes; the engine does since repo 52d009a): "
+        "LIKE matches by characters (a character = a UTF-8 lead byte and its continuation bytes; the engine does since repo 89a00a1): "
         "% any sequence, _ any one character, backslash makes the next character literal, a pattern ending in a lone backslash matches "
         "nothing; texts are valid UTF-8 (they come from SQL string literals); generated patterns have 1-8 items over "
         "{a, b, %, _, \\%, \\_, \\\\, \\a, €}, subjects 0-10 characters over {a, b, %, _, \\, €}, two thirds of the literal subjects are "
